@@ -83,6 +83,14 @@ def main(tier):
     # directed (F28): a calibrated half-precision model with a parameterless LayerNorm, reloaded
     cases.append({"seed": 21, "dtype": "float16", "weights": "qint4", "activations": "qfloat8", "calibrate": True, "freeze": True, "input": [2, 32], "load_from": ["pickle"], "second_cycle": False, "directed": "F28",
                   "tree": {"t": "seq", "ch": [{"t": "linear", "in": 32, "out": 16, "bias": True}, {"t": "ln", "shape": [16], "affine": False, "bias": False, "eps": 1e-5}, {"t": "linear", "in": 16, "out": 8, "bias": True}]}})
+    # directed: unfrozen grouped int2 / int4 convolutions (kernel fan-in 288 -> group size 96, while in_channels = 32 alone would
+    # not be grouped) and a wide Linear, reloaded: the group size of the reloaded module must be the saved module's
+    for k, (wq_, dt_) in enumerate([("qint4", "float32"), ("qint2", "float32"), ("qint4", "float16")]):
+        cases.append({"seed": 30 + k, "dtype": dt_, "weights": wq_, "activations": None, "calibrate": False, "freeze": k == 2, "input": [1, 32, 6, 6], "load_from": ["pickle"], "second_cycle": True,
+                      "optimizer": None, "streamline": False, "directed": "grouped-conv",
+                      "tree": {"t": "seq", "ch": [{"t": "conv", "cin": 32, "cout": 16, "k": 3, "stride": 1, "padding": 1, "dilation": 1, "groups": 1, "bias": True, "padding_mode": "zeros"},
+                                                  {"t": "relu"},
+                                                  {"t": "conv", "cin": 16, "cout": 4, "k": [3, 3], "stride": 1, "padding": 0, "dilation": 1, "groups": 1, "bias": False, "padding_mode": "zeros"}]}})
     crash = {"seed": 22, "dtype": "bfloat16", "weights": "qint8", "activations": None, "calibrate": False, "freeze": True, "input": [1, 64], "load_from": ["safetensors"], "second_cycle": False,
              "tree": {"t": "seq", "ch": [{"t": "linear", "in": 64, "out": 6, "bias": True}]}}
     rc = ck.impl("ser", {"cases": [crash]}, timeout=600)
